@@ -585,6 +585,9 @@ func appRun(prop string, nontrivial []string) func(c *Ctx) {
 				p := profileFor(prop, r, 8*(j/len(defects)), c.Quick()) // the plain profile family
 				p.OddGenesis = defects[j%len(defects)]
 				p.RichGenesis, p.ExportedGenesis = false, false
+				if p.CustomPos {
+					p.Pos.MaxValidators = 100000 // the validator the defect sits on is inside the set
+				}
 				p.Blocks = 25
 				p.Name += "+odd-genesis:" + p.OddGenesis
 				runCase(c, prop, appCase{ID: fmt.Sprintf("og%d", j), Seed: r.U64(), Prof: p}, nontrivial)
